@@ -10,8 +10,10 @@ Protocol lines of the URL-building model (C19).  Lines are self-contained (state
         a router holding only `rule`; `resolve(path)`; the matched values handed to `url`
         (anonymous ones positionally); the built URL resolved again.
         → `add-err:<ErrName>` | `m=miss`
-        | `m=<values> s=<values|miss|-> u=err:<ErrName>`
-        | `m=<values> s=… u=ok:<url> m2=<values|miss> s2=<values|miss|->`
+        | `d=<0|1> m=<values> s=<values|miss|-> u=err:<ErrName>`
+        | `d=… m=<values> s=… u=ok:<url> m2=<values|miss> s2=<values|miss|->`
+        `d` = the rule lies in the domain of the theorems (`urlDomain`, and no selector text
+        unless it has a `rex` filter); the harness expects 1 for every rule it generates.
         `m`/`m2` come from the tree (`RadiDict.get`), `s`/`s2` from the rule-by-rule matcher
         `matchRule` the theorems are stated over (`-` when the rule has a `rex` filter, whose
         selectors that matcher does not cover).
@@ -110,7 +112,7 @@ def handle : List String → Option String
         match treeGet env R.tree (stripSlash path) with
         | .miss .. => pure "m=miss"
         | .hit _ keys vals _ =>
-          let head := s!"m={showVals vals} s={spec (stripSlash path)}"
+          let head := s!"d={show01 (urlDomain r && (selFree r || hasRex r.syms))} m={showVals vals} s={spec (stripSlash path)}"
           let (a, k) := splitArgs keys vals
           match routeUrl env (fenvOf fenv) r a k with
           | .error e => pure s!"{head} u=err:{e}"
